@@ -234,6 +234,7 @@ type vfTickReader struct {
 	s     *Scheduler
 	ticks []time.Time
 	k     int
+	wait  time.Duration // real time the native loop spends in its timer
 }
 
 var vfLate = []time.Duration{0, 20 * time.Second, 70 * time.Second, 200 * time.Second}
@@ -244,7 +245,16 @@ func (r *vfTickReader) Read(now time.Time) ([]*entry, error) {
 	r.ticks = append(r.ticks, tick)
 	vfEvent("tick", len(r.ticks), 0)
 	// the wall clock when this tick's work ends
-	setFixedTime(tick.Add(vfLate[vfChoice("late", len(vfLate))]))
+	late := vfLate[vfChoice("late", len(vfLate))]
+	setFixedTime(tick.Add(late))
+	// natively the loop then waits on a real timer for the rest of the minute: paths that
+	// would wait more than a minute in total are explored but not replayed as samples
+	if late < time.Minute && len(r.ticks) < r.k {
+		r.wait += time.Minute - late
+		if r.wait > time.Minute {
+			vfNoSample()
+		}
+	}
 	if len(r.ticks) == r.k {
 		r.s.Stop()
 	}
